@@ -142,6 +142,45 @@ def opDecrT (args : List String) (impl : String) : Verdict :=
     | _, _, _, _, _, _, _, _ => bad "decrt"
   | _ => bad "decrt"
 
+/-- `flipz seed size bs m`: as `flipx`, on a SPARSE outboard: the records with index `i % m = 0` are all zero
+(an incomplete outboard: pairs not yet known), plus a copy of the sparse outboard into a target that already holds
+other records (a re-used target). Spec: the re-ordering of the records, zeros included. -/
+def opFlipZ (args : List String) (impl : String) : Verdict :=
+  match args.mapM (·.toNat?) with
+  | some [seed, size, bs, m] =>
+    let tree : Tree := ⟨size, bs⟩
+    let raw := randBytes seed (tree.outboardSize + 32)
+    let root := raw.take 32
+    let data0 := raw.drop 32
+    let data := (List.range (tree.outboardSize / 64)).flatMap fun i =>
+      if i % (max m 1) == 0 then zerosN 64 else (data0.drop (i * 64)).take 64
+    let pre : Store HB := ⟨.preMem, root, tree, data⟩
+    let post : Store HB := ⟨.postMem, root, tree, data⟩
+    let str (r : Res IoErr (Store HB)) : String :=
+      match r with
+      | .ok s => s!"{kindStr s.kind}:{dig s.root}:{dig s.data}"
+      | .err e => ioErrStr e
+      | .panic => "panic"
+    let bind (r : Res IoErr (Store HB)) (f : Store HB → Res IoErr (Store HB)) := match r with | .ok s => f s | x => x
+    let a := flip hf pre
+    let a2 := bind a (flip hf)
+    let b' := flip hf post
+    let b2 := bind b' (flip hf)
+    -- copy of the sparse pre-order outboard into a post-order target that holds other records already
+    let other := randBytes (seed + 7) tree.outboardSize
+    let cp := copy hf .sync pre ⟨.postMem, root, tree, other⟩
+    let cpS := match cp with | .ok st => dig st.data | .err e => ioErrStr e | .panic => "panic"
+    let mdl := s!"{str a} {str a2} {str b'} {str b2} {cpS}"
+    let P := Spec.persistedPre size bs
+    let Q := Spec.persistedPost size bs
+    let rec64 (l : List UInt8) (i : Nat) : List UInt8 := (l.drop (i * 64)).take 64
+    let toPost := Q.flatMap fun x => match Spec.indexOfNode P x with | some i => rec64 data i | none => []
+    let toPre := P.flatMap fun x => match Spec.indexOfNode Q x with | some i => rec64 data i | none => []
+    let spec := s!"postMem:{dig root}:{dig toPost} preMem:{dig root}:{dig data} preMem:{dig root}:{dig toPre} postMem:{dig root}:{dig data} {dig toPost}"
+    { model := mdl, specFail := if impl == spec then none else some s!"flip / copy of a sparse outboard is not the re-ordering of its records ({spec})",
+      nontrivial := tree.blocks > 2 }
+  | _ => bad "flipz"
+
 def us (s : String) : String := s.replace " " "_"
 
 def hexNat (n : Nat) : String := String.ofList (Nat.toDigits 16 n)
